@@ -494,21 +494,19 @@ V0_VERSIONS = [(0, 1, 0), (0, 2, 0), (0, 3, 0), (0, 4, 0), (0, 5, 0)]
 
 
 def v0_version(desc):
-    """the version a v0 case is written in: versions before 0.3.0 have no meta lines, hence hold one time and one
-    key signature only; cases with a change after the first stored note go to 0.3.0 - 0.5.0"""
+    """the version a v0 case is written in: versions before 0.3.0 have no meta lines, hence hold one global time
+    and key signature only; cases with more go to 0.3.0 - 0.5.0"""
     base = desc["base"]
     v = tuple(desc["version"])
     pd = base["part"]
-    byid = {n["id"]: n for n in pd["notes"]}
-    stored = [byid[a["score_id"]]["t"] for a in base["align"] if a["label"] in ("match", "deletion")]
-    o_first = min(stored)
+    first_t = min(m[0] for m in pd["measures"])
     later = 0
     for src, val in ((sorted(pd["ts"]), lambda x: (x[1], x[2])), (sorted(pd["ks"]), lambda x: (x[1], x[2] or "major"))):
         src = [x for x in src if any(ms <= x[0] < me for ms, me, _ in pd["measures"])]
         prev = None
         for x in src:
-            if x[0] > o_first and val(x) != prev:
-                later += 1
+            if val(x) != prev and x[0] > first_t:
+                later += 1        # a change after the start of the score: a meta line
             prev = val(x)
     if later and v < (0, 3, 0):
         v = (0, 3 + desc["seed"] % 3, 0)
@@ -518,8 +516,8 @@ def v0_version(desc):
 def synth_v0(desc):
     """Text lines of a version-0.x match file with the content of the 1.0.0 export of the base case: the line
     objects the exporter builds are re-expressed with the line classes of matchlines_v0 (same field values);
-    signatures become one global info line (the signature in force at the first stored note) plus meta lines for
-    later changes; ornaments become trill lines; deletions / insertions use the old sub-kinds at random."""
+    the signature at the start of the score becomes the global info line, every later change a meta line (0.3.0
+    and later); ornaments become trill lines; deletions / insertions use the old sub-kinds at random."""
     from partitura.io import matchlines_v0 as V0, matchlines_v1 as V1
     from partitura.io.matchfile_utils import Version, MatchKeySignature, MatchTimeSignature
     from partitura.io.exportmatch import matchfile_from_alignment
@@ -533,7 +531,7 @@ def synth_v0(desc):
     ppart = build_perf(base)
     mf = quiet(matchfile_from_alignment, [dict(a) for a in base["align"]], ppart, part, mpq=base["mpq"], ppq=base["ppq"],
                assume_part_unfolded=True)
-    first_onset = min(l.snote.OnsetInBeats for l in mf.lines if hasattr(l, "snote"))
+    score_start = float(part.beat_map(min(m[0] for m in base["part"]["measures"])))
 
     def info(attr, value):
         _, fmt, typ = V0.INFO_LINE[version][attr]
@@ -564,12 +562,9 @@ def synth_v0(desc):
         for l in sig:
             if not coll or not (coll[-1].Value == l.Value):
                 coll.append(l)
-        inforce = max([i for i, l in enumerate(coll) if l.TimeInBeats <= first_onset], default=None)
         sig_out = []
         for i, l in enumerate(coll):
-            if inforce is not None and i < inforce:
-                continue
-            if i == inforce:
+            if i == 0 and l.TimeInBeats <= score_start:
                 sig_out.append(info(attr, sigval(l)))
             else:
                 _, fmt, typ = V0.META_LINE[version][attr]
@@ -652,8 +647,7 @@ def canon_align(al):
 
 
 def oracle_rt(desc, res, v0=False):
-    """v0: the file is a synthesised version-0.x file (no text clauses; every ornament is a trill; the time/key
-    signature in force at the first stored note is a global info line without a position)"""
+    """v0: the file is a synthesised version-0.x file (no text clauses; every ornament is a trill)"""
     import numpy as np
     import partitura.score as S
 
@@ -816,11 +810,11 @@ def oracle_rt(desc, res, v0=False):
                 F.append("measure: saved measure starting at beat %r (holds stored notes) has no loaded measure there; loaded starts %r" % (mb, lmeas_b[:8]))
             else:
                 lt = hit[0]
-                if cur_ts is not None and cur_ts != prev_ts and not v0:
+                if cur_ts is not None and cur_ts != prev_ts:
                     if tuple(cur_ts) not in l_ts.get(lt, []):
                         F.append("timesig: %r written at the bar starting at beat %r, loaded time signatures there: %r (all: %r)" % (
                             cur_ts, mb, l_ts.get(lt), sorted(l_ts.items())[:6]))
-                if ms in ks_at and (ks_at[ms][0], ks_at[ms][1] or "major") != prev_ks and not v0:
+                if ms in ks_at and (ks_at[ms][0], ks_at[ms][1] or "major") != prev_ks:
                     f, m = ks_at[ms]
                     m = m or "major"
                     if (f, m) not in l_ks.get(lt, []):
@@ -874,8 +868,8 @@ def oracle_text(desc, res):
 
 def oracle_quarters(desc, res, stored, v0=False):
     """positions in quarters from the loaded origin (first stored note if it is not after beat 0, else beat 0):
-    independent of the loaded measure structure.  v0: the signature in force at the first stored note is a global
-    info line; it is demanded at the loaded origin, earlier ones not at all"""
+    independent of the loaded measure structure (the same for the older formats: their global signature line is the
+    first signature of the score, which starts at or before the origin)"""
     import partitura.score as S
 
     F = []
@@ -920,17 +914,12 @@ def oracle_quarters(desc, res, stored, v0=False):
             if val(x) != prev:
                 changes.append(x)
             prev = val(x)
-        inforce = max([i for i, x in enumerate(changes) if x[0] <= o_first], default=None)
         for i, x in enumerate(changes):
             v = val(x)
             if i + 1 < len(changes) and changes[i + 1][0] <= o_ref:
                 continue       # replaced before (or at) the loaded origin: not part of the loaded score
-            if v0 and inforce is not None and i < inforce:
-                continue       # not in the file: replaced before the first stored note
             if True:
                 q = max(Fraction(0), Fraction(x[0] - o_ref, divs))
-                if v0 and i == inforce:
-                    q = Fraction(0)      # a global line: in force from the loaded origin (fix C08-14)
                 if v not in loaded.get(q, []):
                     F.append("%s: %r written %s quarters after the origin, loaded there: %r (all: %r)" % (
                         "timesig-q" if cls is S.TimeSignature else "keysig-q", v, q, loaded.get(q), sorted(loaded.items())[:6]))
